@@ -17,7 +17,8 @@ VERIF = os.path.dirname(os.path.dirname(os.path.abspath(__file__)))
 
 
 def register(reg, prog):
-    pass
+    from contracts._c16d import register as r
+    r(reg, prog)
 
 
 # ---------------------------------------------------------------------- RFC 3986 / RFC 7252 reference (written from the RFCs)
@@ -248,7 +249,7 @@ def bounded(tier, seed):
     # structured authorities: every host form with every port form; a non-numeric or out-of-range port is rejected whatever the host looks like,
     # and no authority makes anything but the URL errors escape
     hosts_ok = ['host', 'EXAMPLE.com', '10.0.0.1', '[::1]', '[2001:db8::1]', '[fe80::1%eth0]', '[::ffff:1.2.3.4]']
-    hosts_odd = ['[v1.x]', '[::zz]', '[]', '[1.2.3.4]', '[::1', '::1]', '[[::1]', '1.2.3.999', 'h%FFst', '[::1%25eth0]']
+    hosts_odd = ['[v1.x]', '[::zz]', '[]', '[1.2.3.4]', '[::1', '::1]', '[[::1]', '1.2.3.999', 'h%FFst', '[::1%25eth0]', '1..2.3', '...', '1.2.3.', '.1.2.3', '1.2.3.' + '1' * 4400]
     ports_bad = [':abc', ':-1', ':99999', ':65536', ':1x', ': 1', ':\u0661\u0662', ':+1', ':1_0', ':0x10']
     ports_ok = ['', ':', ':0', ':5683', ':65535']
     n_auth = 0
